@@ -1,6 +1,7 @@
 (* C21: inside each recorded defect class the implementation model leaves the relational model;
    concrete witnesses (every one is replayed on the real database by the correspondence run,
-   known_findings.d/C21.json). *)
+   known_findings.d/C21.json).  The witnesses of the classes repaired in /repo (2, 3, 4, 5, 7, 9:
+   commits 2b262ce, c3e8980, e35ce21, 6de60fd) now lie outside every class and agree. *)
 From Coq Require Import ZArith List Bool.
 From TV Require Import Model.DdlSpec Model.AlterImpl.
 Import ListNotations.
@@ -22,26 +23,27 @@ Definition w8 : list stmt := [CreateTable 0 [ci 0]; CreateIndex 1 0 5].
 Definition w9 : list stmt := [CreateTable 0 [ci 0]; Insert 0 [VI 1]; DropCol 0 0 true].
 Definition w12 : list stmt := [CreateTable 0 [ci 0; ci 1]; CreateIndex 0 0 1; DropCol 0 1 true; CreateIndex 0 0 0].
 
+Ltac repaired := split; [vm_compute; reflexivity | vm_compute; reflexivity].
 Ltac refute := split; [vm_compute; reflexivity | let Hne := fresh "Hne" in intro Hne; vm_compute in Hne; discriminate Hne].
 
 Lemma add_default_refuted_l : hist_class i_empty w1 = 1 /\ i_run i_empty w1 <> s_run s_empty w1.
 Proof. refute. Qed.
-Lemma drop_resurrects_refuted_l : hist_class i_empty w2 = 2 /\ i_run i_empty w2 <> s_run s_empty w2.
-Proof. refute. Qed.
-Lemma drop_other_case_refuted_l : hist_class i_empty w3 = 3 /\ i_run i_empty w3 <> s_run s_empty w3.
-Proof. refute. Qed.
-Lemma add_duplicate_refuted_l : hist_class i_empty w4 = 4 /\ i_run i_empty w4 <> s_run s_empty w4.
-Proof. refute. Qed.
-Lemma update_resurrects_refuted_l : hist_class i_empty w5 = 5 /\ i_run i_empty w5 <> s_run s_empty w5.
-Proof. refute. Qed.
+Lemma drop_resurrects_repaired_l : hist_class i_empty w2 = 0 /\ i_run i_empty w2 = s_run s_empty w2.
+Proof. repaired. Qed.
+Lemma drop_other_case_repaired_l : hist_class i_empty w3 = 0 /\ i_run i_empty w3 = s_run s_empty w3.
+Proof. repaired. Qed.
+Lemma add_duplicate_repaired_l : hist_class i_empty w4 = 0 /\ i_run i_empty w4 = s_run s_empty w4.
+Proof. repaired. Qed.
+Lemma update_resurrects_repaired_l : hist_class i_empty w5 = 0 /\ i_run i_empty w5 = s_run s_empty w5.
+Proof. repaired. Qed.
 Lemma rename_indexed_refuted_l : hist_class i_empty w6 = 6 /\ i_run i_empty w6 <> s_run s_empty w6.
 Proof. refute. Qed.
-Lemma rename_duplicate_refuted_l : hist_class i_empty w7 = 7 /\ i_run i_empty w7 <> s_run s_empty w7.
-Proof. refute. Qed.
+Lemma rename_duplicate_repaired_l : hist_class i_empty w7 = 0 /\ i_run i_empty w7 = s_run s_empty w7.
+Proof. repaired. Qed.
 Lemma index_missing_column_refuted_l : hist_class i_empty w8 = 8 /\ i_run i_empty w8 <> s_run s_empty w8.
 Proof. refute. Qed.
-Lemma drop_only_column_refuted_l : hist_class i_empty w9 = 9 /\ i_run i_empty w9 <> s_run s_empty w9.
-Proof. refute. Qed.
+Lemma drop_only_column_repaired_l : hist_class i_empty w9 = 0 /\ i_run i_empty w9 = s_run s_empty w9.
+Proof. repaired. Qed.
 
 Lemma drop_column_index_file_refuted_l : hist_class i_empty w12 = 12 /\ i_run i_empty w12 <> s_run s_empty w12.
 Proof. refute. Qed.
